@@ -14,8 +14,14 @@ Driver operations for the ImpExp model (C17; line protocol). Core Lean only.
         →  ok <rows> <digest> | skipped <rows> <digest> | refused:<why> <rows> <digest> | panic <rows> <digest>
            | outside <row index>
   idump                                    the table, rows as in `dump`
+
+Every iimport / istart ALSO runs the REGENERATED import (BHS/Gen/Import.lean, translated from database/import.go and
+sqlite_adapter.go on every run) on the same table, file and checkpoints and answers `err:gen-mismatch …` when its table
+or its verdict differs from the hand model's — the correspondence runs exercise the translation too (the equality is
+theorem Gen_import_refines in BHS/Props/ImportGen.lean).
 -/
 import BHS.Model.ImpExp
+import BHS.Gen.Import
 import Driver.Ops.Chain
 
 namespace Driver.Ops.ImpExp
@@ -69,10 +75,20 @@ def resStr (t : Store String) : StartRes → String
 def parseCps (h hash : String) : Option (List (Nat × String)) :=
   if h = "-" then some [] else (fun k => [(k, hash)]) <$> h.toNat?
 
+/-- the regenerated import on the same input: table afterwards and observed verdict -/
+def genStart (bs : Nat) (cps : List (Nat × String)) (tbl : Store String) (file : Option (List Record)) :
+    Store String × BHS.ImportPrim.Observed :=
+  BHS.ImportPrim.observe (BHS.Gen.Import.importHeaders cfg strCodec
+    { BHS.Gen.Import.consts with sqliteBatchSize := (bs : Int) } (BHS.ImportPrim.world0 tbl file cps))
+
 def doStart (st : S) (tbl : Store String) (bs cph cphash : String) (toks : List String) : Option (S × String) :=
   match bs.toNat?, parseCps cph cphash with
   | some bs, some cps =>
     let r := start cfg strCodec bs cps tbl (parseFile toks)
+    let g := genStart bs cps tbl (parseFile toks)
+    if bs > 0 && !(decide (g.1 = r.1) && decide (g.2 = BHS.ImportPrim.verdictOf r.2)) then
+      some ({ st with table := r.1 }, s!"err:gen-mismatch model={resStr r.1 r.2} generated={repr g.2} rows={g.1.length}")
+    else
     some ({ st with table := r.1 }, resStr r.1 r.2)
   | _, _ => some (st, "bad-args")
 
